@@ -1,19 +1,19 @@
-SPECIFICATION FairSpec
+SPECIFICATION Spec
 CONSTANTS
   SettingsSpace <- TinySpace
-  LossKinds = {"eof", "reset"}
-  LoginModes = {"ok", "rejected"}
-  BgKinds = {"pparent"}
+  LossKinds = {"reset", "eof", "wfail"}
+  LoginModes = {"ok"}
+  BgKinds = {"pparent", "stimer", "xfer"}
   MaxBg = 1
-  MaxLosses = 2
+  MaxLosses = 1
   MaxLogins = 1
   SlowScan = {FALSE}
   Env = {"exec", "peerin", "userdisc", "midburst"}
-  MaxConnFail = 1
+  MaxConnFail = 0
   FixAutoJoin = TRUE
   FixDistStopped = TRUE
   FixWatchdogStopped = TRUE
-  FixCancelFirst = TRUE
+  FixCancelFirst = FALSE
   FixTimersStopped = TRUE
   FixStaleInit = TRUE
   FixSelfAwait = TRUE
@@ -30,5 +30,4 @@ INVARIANT ReconnectArmed
 INVARIANT ReconnectOnlyIf
 INVARIANT StopIsFinal
 PROPERTY ReconnectStep
-PROPERTY ReconnectHappens
 CHECK_DEADLOCK FALSE
